@@ -26,3 +26,38 @@ package backends
 //@ func (*FileSystemCache).Exists(fsc, ctx, path, key) (r, err)
 //@   pure
 //@   ensures [true_means_present] r ==> err == nil && (has(fsIsFile, pathJoin(pathJoin(fsc.workspaceCacheDir, path), key)) || has(fsIsDir, pathJoin(pathJoin(fsc.workspaceCacheDir, path), key)))
+
+// C08: the remote wrapper. `bstored` / `bdata` (ghost) are the entries of the tier behind rw.remote - the store that is
+// shared across machines; the local tier is the file system model.
+// "no dangling references, even when a blob already existed in the local cache": callers (Cas.Write) skip the upload when
+// Exists answers true, so true must mean "present in the remote store".
+//@ func (*RemoteWrapper).Exists(rw, ctx, path, key) (r, err)
+//@   pure
+//@   ensures [true_implies_stored_in_remote] r && err == nil ==> has(bstored, path + "/" + key)
+
+// read-through: a local miss is served from the remote store and fills the local tier with the same content; a remote
+// error is an error (never wrong content)
+//@ func (*RemoteWrapper).Get(rw, ctx, path, key) (r, err)
+//@   requires [key_is_not_a_temp_name] !isTmpName(pathJoin(pathJoin(rw.fs.workspaceCacheDir, path), key))
+//@   ensures [local_miss_served_from_remote] err == nil && !old(has(fsIsFile, pathJoin(pathJoin(rw.fs.workspaceCacheDir, path), key))) ==>
+//@        old(has(bstored, path + "/" + key)) && rcontent[ref(r)] == old(select(bdata, path + "/" + key)) &&
+//@        select(fsData, pathJoin(pathJoin(rw.fs.workspaceCacheDir, path), key)) == old(select(bdata, path + "/" + key))
+//@   ensures [nil_on_error] err != nil ==> r == nil
+
+// C08: "addresses the same remote namespace (same bucket, prefix and workspace identity)": the object name is a function
+// of the configured prefix, the workspace prefix, the path and the key, and of nothing else.
+//@ func (*S3Cache).fullPrefix(s) (r)
+//@   pure
+//@   ensures [prefix_then_workspace] r == ite(s.prefix == "", s.workspacePrefix, s.prefix + "/" + s.workspacePrefix)
+
+//@ func (*S3Cache).buildPath(s, path, key) (r)
+//@   pure
+//@   ensures [function_of_prefix_ws_path_key] r == ite(s.prefix == "", s.workspacePrefix, s.prefix + "/" + s.workspacePrefix) + "/" + trimChars(path, "/") + "/" + trimChars(key, "/")
+
+//@ func (*GCSCache).fullPrefix(gcs) (r)
+//@   pure
+//@   ensures [prefix_then_workspace] r == ite(gcs.prefix == "", gcs.workspacePrefix, gcs.prefix + "/" + gcs.workspacePrefix)
+
+//@ func (*GCSCache).buildPath(gcs, path, key) (r)
+//@   pure
+//@   ensures [function_of_prefix_ws_path_key] r == ite(gcs.prefix == "", gcs.workspacePrefix, gcs.prefix + "/" + gcs.workspacePrefix) + "/" + trimChars(path, "/") + "/" + trimChars(key, "/")
